@@ -1,4 +1,5 @@
 import XsVerif.Props.C19
+import XsVerif.Props.C19Ns
 open XsVerif.Props.C19
 #print axioms selectStep_stepFor
 #print axioms path_selects_unique
@@ -20,3 +21,8 @@ open XsVerif.Props.C19
 #print axioms lazy_state_path_contains
 #print axioms lazy_path_exact_partial
 #print axioms lazy_path_counterexample
+#print axioms qpath_selects_unique
+#print axioms scoped_path_selects
+#print axioms same_map_path_selects
+#print axioms unreadable_step
+#print axioms stale_map_counterexample
